@@ -65,6 +65,7 @@ class Sched(object):
         self.wname = wname
         self.reqs = []          # (event, Request)
         self.trace = []
+        self.op_calls = []
 
     def gap(self, g):
         w = self.w
@@ -84,6 +85,7 @@ class Sched(object):
         k = w.kernel
         name = self.wname
         self.trace.append((NAMES.get(e, e), p, round(w.clock.now - w.t0, 3)))
+        self.op_calls.append(k.calls)        # kernel-call index at which this event begins
         req = None
         if e == EV_CHECK:
             try:
